@@ -91,6 +91,8 @@ def one_trace(rng, tid, prop):
             p = {}
             if fn in ("around", "round"):
                 p = {"decimals": rng.choice([0, 1, -1])}
+            if fn in ("ones_like", "zeros_like") and rng.random() < 0.4:
+                p = rng.choice([{"dtype": "float64"}, {"shape": [2, 2]}, {"dtype": "int8", "shape": [3]}])
             if fn in METHODS and rng.random() < 0.35:
                 sp = "method"
             rec.do("constfn", [a], keep=False, fn=fn, p=p, spelling=sp, index_result=fn in INDEX_RESULT, np=[], np_out="ret")
